@@ -84,6 +84,20 @@ def stepNS (st : NS) (op impl : String) : NS × StepOut :=
         | none => ["unparsable"]
       (st, { model := s!"{showNats eA} | {showNats eB}", oracle := orc, nontrivial := decide (cs.length > 1) })
     | none => (st, { model := "bad-op" })
+  | ["e2e", nameA, nameB, _k, dirs] =>
+    -- outcome-only op: the nonces are drawn by the implementation, so the model does not
+    -- predict WHICH same-direction duplicate survives; the oracle judges the outcome.
+    let ds := dirs.toList.map (· == 'a')
+    let parseIdx (s : String) : Option (List Nat) :=
+      if s == "-" then some [] else (splitOnChar s ',').mapM (fun x => (x.drop 1).toString.toNat?)
+    let orc := match impl.splitOn "|" with
+      | [ka, kb, ra, rb] =>
+        match parseIdx ka, parseIdx kb, parseIdx ra, parseIdx rb with
+        | some ka, some kb, some ra, some rb =>
+          if e2eOk (nameOrd nameB nameA) ds ka kb ra rb then [] else ["e2e-not-one-same-link"]
+        | _, _, _, _ => ["unparsable"]
+      | _ => ["unparsable"]
+    (st, { model := impl, oracle := orc, nontrivial := decide (ds.length > 1) })
   | ["ns", this] => ({ thisName := this, sessions := [] }, { model := "ok" })
   | ["open", srv, pid] =>
     match parseBool? srv, pid.toNat? with
@@ -132,7 +146,7 @@ def step (ds : DS) (op impl : String) : DS × StepOut :=
     let ready := if impl == "true" then (pid.toNat?.map (· :: ds.readyImpl)).getD ds.readyImpl else ds.readyImpl
     let orc := if readyOk ns' ready then [] else ["two-ready-sessions-for-one-peer-on-acceptor"]
     ({ ns := ns', readyImpl := ready }, { out with oracle := out.oracle ++ orc })
-  | "visible" :: _ | "checkc" :: _ | "checks" :: _ | "elect" :: _ | "world" :: _ => ({ ds with ns := ns' }, out)
+  | "visible" :: _ | "checkc" :: _ | "checks" :: _ | "elect" :: _ | "world" :: _ | "e2e" :: _ => ({ ds with ns := ns' }, out)
   | _ => ({ ns := ns', readyImpl := [] }, out)
 
 def run (ops impl : Array String) : IO Tally :=
